@@ -119,6 +119,24 @@ theorem setAttr_wf {m : MeshVal α} (h : WF m) (k : AttrKey) (data : List α)
         · simp at hres
     · exact h.2.2
 
+/-- deleting a key (`SetFloatNAttribute(k, empty)`) keeps WF when another array remains or there is no index -/
+theorem setAttr_delete_wf {m : MeshVal α} (h : WF m) (k : AttrKey)
+    (hk : (∃ kd ∈ m.attrs, kd.1 ≠ k) ∨ m.indices = []) : WF (m.setAttr k []) := by
+  apply wf_of_uniform m.attrLen
+  · intro kd hkd
+    simp only [setAttr, List.isEmpty_nil, if_true] at hkd
+    exact h.1 kd (List.mem_filter.mp hkd).1
+  · exact h.2.1
+  · intro hres
+    show m.indices = []
+    rcases hk with ⟨kd, hkd, hne⟩ | hk
+    · exfalso
+      simp only [setAttr, List.isEmpty_nil, if_true] at hres
+      have : kd ∈ m.attrs.filter (fun kd => kd.1 != k) := List.mem_filter.mpr ⟨hkd, by simpa using hne⟩
+      rw [hres] at this; simp at this
+    · exact hk
+  · exact h.2.2
+
 theorem modifyAttr_wf {m m' : MeshVal α} (h : WF m) {k : AttrKey} {f : List α → List α}
     (hf : ∀ d, (f d).length = d.length) (hm : m.modifyAttr k f = some m') : WF m' := by
   unfold modifyAttr at hm
